@@ -67,8 +67,10 @@ def leaves(shape):
     return out
 
 
-def render(shapes):
-    """(library text, client text, whole text) for a group of shapes."""
+def render(shapes, consts=True):
+    """(library text, client text, whole text) for a group of shapes.  consts=False: the library exports no constant of
+    the types (a client that reads such a constant from an ARCHIVE member crashes: open finding of C05, kept visible by one
+    fixed program of checks/c05.py; the other archive splits stay clear of it so that they can show anything else)."""
     ts = [text(s) for s in shapes]
     lib = [HEAD + IMPORTS + CONSTRUCTORS]
     cli = []
@@ -76,10 +78,13 @@ def render(shapes):
         lib.append("m%d(k: SingleInteger): %s == { import from %s; mk(k) }" % (j, t, t))
         lib.append("f%d(x: %s): SingleInteger == { import from %s; get(x) + %d }" % (j, t, t, j))
         lib.append("r%d(x: Record(p: %s, q: SingleInteger)): SingleInteger == { import from %s; get(x.p) + x.q }" % (j, t, t))
-        lib.append("c%d: %s == { import from %s; mk(%d) }" % (j, t, t, 40 + j))
         cli.append("import from %s, Record(p: %s, q: SingleInteger);" % (t, t))
-        cli.append('print << f%d(m%d(5)) << " " << r%d([m%d(6), 3]) << " " << get(c%d) << " "; show()$%s; print << newline;'
-                   % (j, j, j, j, j, t))
+        if consts:
+            lib.append("c%d: %s == { import from %s; mk(%d) }" % (j, t, t, 40 + j))
+            cli.append('print << f%d(m%d(5)) << " " << r%d([m%d(6), 3]) << " " << get(c%d) << " "; show()$%s; print << newline;'
+                       % (j, j, j, j, j, t))
+        else:
+            cli.append('print << f%d(m%d(5)) << " " << r%d([m%d(6), 3]) << " "; show()$%s; print << newline;' % (j, j, j, j, t))
     lib_text = "\n".join(lib) + "\n"
     body = "\n".join(cli) + "\n"
     client = HEAD + '#library PLib "%s"\nimport from PLib;\n' + IMPORTS + body
